@@ -2,6 +2,7 @@ package sim
 
 import (
 	"fmt"
+	"net/url"
 
 	"verif/sim/core"
 	"verif/sim/ref"
@@ -87,7 +88,9 @@ func pickSigningKey(r *core.RNG, pool *Pool, s *Swarm) int {
 
 var keyIDs = []string{"k1", "k2", "k3", "signing-key_4", "K-5"}
 var svcIDs = []string{"s1", "s2", "hub_3", "S-4"}
-var akaURIs = []string{"https://example.com/a", "did:web:example.org", "urn:uuid:1234", "https://xn--bcher-kva.example/päth", "mailto:a@b.example"}
+var akaURIs = []string{"https://example.com/a", "did:web:example.org", "urn:uuid:1234", "https://xn--bcher-kva.example/päth", "mailto:a@b.example",
+	// different strings that a URL normaliser would identify with an entry above (the set semantics are on strings)
+	"HTTPS://example.com/a", "https://example.com/a#", "https://xn--bcher-kva.example/p%C3%A4th", "https://example.com/a?"}
 
 type docKeyKind struct {
 	typ      string
@@ -117,7 +120,25 @@ func genDocKey(r *core.RNG, pool *Pool, id string) map[string]any {
 	if k.b58 {
 		e["publicKeyBase58"] = b58(key.X)
 	} else {
-		e["publicKeyJwk"] = map[string]any{"$key": key.Idx}
+		jwk := map[string]any{"$key": key.Idx}
+		if r.Chance(1, 5) {
+			// members a JWK exported elsewhere carries: strings, booleans, arrays, objects
+			for _, m := range core.Subset(r, []string{"kid", "alg", "use", "ext", "key_ops", "x5c", "custom"}, 1, 3) {
+				switch m {
+				case "kid", "alg", "use":
+					jwk[m] = core.Pick(r, []string{"sig", "ES256", "key-1"})
+				case "ext":
+					jwk[m] = true
+				case "key_ops":
+					jwk[m] = []any{"verify"}
+				case "x5c":
+					jwk[m] = []any{"MIIBfake"}
+				default:
+					jwk[m] = map[string]any{"n": jsonInt(r.Intn(9)), "nested": []any{nil, "x"}}
+				}
+			}
+		}
+		e["publicKeyJwk"] = jwk
 	}
 	if !r.Chance(1, 6) {
 		ps := core.Subset(r, k.purposes, 1, 2)
@@ -187,7 +208,7 @@ func genPatches(r *core.RNG, pool *Pool, s *Swarm, max int, otherMembers *[]stri
 		case "remove-services":
 			out = append(out, map[string]any{"action": action, "ids": strList(nonEmpty(r, svcIDs, append([]string{"nosuch"}, svcIDs...)))})
 		case "add-also-known-as", "remove-also-known-as":
-			out = append(out, map[string]any{"action": action, "uris": strList(nonEmpty(r, akaURIs, akaURIs))})
+			out = append(out, map[string]any{"action": action, "uris": strList(distinctURIs(nonEmpty(r, akaURIs, akaURIs)))})
 		case "replace":
 			if !r.Chance(1, 3) {
 				continue
@@ -358,6 +379,25 @@ func nonEmpty(r *core.RNG, fallback, from []string) []string {
 	out := core.Subset(r, from, 2, 5)
 	if len(out) == 0 {
 		out = []string{core.Pick(r, fallback)}
+	}
+	return out
+}
+
+// distinctURIs drops URIs that patch validation would call duplicates of an earlier one in the same patch
+// (validation compares the parsed-and-reprinted form).
+func distinctURIs(uris []string) []string {
+	seen := map[string]bool{}
+	var out []string
+	for _, u := range uris {
+		key := u
+		if p, err := url.Parse(u); err == nil {
+			key = p.String()
+		}
+		if seen[key] {
+			continue
+		}
+		seen[key] = true
+		out = append(out, u)
 	}
 	return out
 }
